@@ -115,3 +115,9 @@ CLAIMS["C02"] = (
     "Decides rules R02.1-R02.9. Not decided: the liveness statement itself ('completes under a fair-lossy network') is a temporal property over network histories and schedules, outside static analysis; timer values, RTO arithmetic, cubic's growth, sequence wrap-around. These rules decide the structure whose absence produces the stalls and abandonments the property excludes." + COMMON_NOTE,
     "transitive control-dependence vocabulary checks, path-sensitive CFG exploration over condition atoms, dominance / must-pass-through, field-store inventories, constant folding (isDataProtocol) on go/ssa",
     "3/C02")
+
+CLAIMS["C03"] = (
+    "The close protocol's structure on every path, explored path-sensitively over the atoms of closeWithError (first call, err == nil, session live, Insert succeeded, close request transmitted): a graceful close of a live session in any state queues the close request itself, under the output lock, behind the pending data before any discard of send state; the discard follows only the transmission of that very sequence number or the exhaustion of the bounded wait; direct transmission happens only when the loop did not transmit it; stream transmissions all hold the output lock so the close request follows the data on the wire; send state is discarded nowhere else. Receiver: a datagram close request ahead of undelivered segments marks the session incomplete before closing it, and Read reports io.EOF only with nothing left to hand out and the session not marked incomplete.",
+    "Decides rules R03.1-R03.6. Not decided: what the peer actually read; the case where sendQueue.Insert fails on a full queue; Read's random choice when closedChan and inputErr are both ready. Defect F7 (clean EOF after a prefix when one UDP datagram is lost before the close request; demos/F7) was repaired in /repo commit cac872e; R03.5/R03.6 report it again if the repair is undone." + COMMON_NOTE,
+    "path-sensitive CFG exploration with external atoms and edge cuts, transitive control-dependence check of the EOF result, must-hold lock check, who-may-call inventory on go/ssa",
+    "3/C03")
